@@ -7,7 +7,7 @@ from harness.common import T
 from harness.main import Engine
 
 PID = 'C19'
-LEVEL = 'translation_validation'
+LEVEL = 'proof'
 RULE = ('dynreg: a generated universe of packages / modules / classes (with methods and nested classes) / functions, the '
         'same leaf names occurring in different modules; 1-3 config texts (each its own parse call) with '
         '"from __gin__ import dynamic_registration" and random import forms and aliases (incl. colliding bound names across '
